@@ -89,7 +89,7 @@ def new_case(cid: str, p: dict, recs: list[dict]) -> dict:
         write_batch(sink, build_new_batch(p, recs))
     except BaseException as e:  # noqa: BLE001
         exc = e
-    return {"id": cid, "mode": "new", "p": p, "recs": recs, "wev": RecSink.events(sink),
+    return {"id": cid, "mode": "new", "given": False, "p": p, "recs": recs, "wev": RecSink.events(sink),
             "wout": outcome(exc), "werr": "" if exc is None else repr(exc)[:200]}
 
 
@@ -201,13 +201,36 @@ def gen_new_shard(args) -> dict:
     return {"path": path, "cases": len(cases)}
 
 
+def given_header(r: random.Random, p: dict, recs: list[dict]) -> tuple[dict, list[dict]]:
+    """A well-formed batch whose header is NOT derivable from its records (a compacted batch keeps its
+    header while records are removed): larger lastOffsetDelta / maxTimestamp, earlier base offset /
+    timestamp, possibly no records at all."""
+    u = project.unaint
+    offs = [u(x["offset"]) for x in recs]
+    tss = [u(x["ts"]) for x in recs]
+    base_off = min(offs) - r.choice([0, 0, 2])
+    base_ts = max(0, min(tss) - r.choice([0, 0, 7, 1000]))
+    last = max(o - base_off for o in offs) + r.choice([0, 3, 40])
+    keep = [x for x in recs if -(2**31) <= u(x["offset"]) - base_off < 2**31]
+    if r.random() < 0.15:
+        keep = []
+    h = {"base_offset": aint(base_off), "ple": p["ple"], "attributes": p["attributes"],
+         "last_offset_delta": aint(min(last, 2**31 - 1)), "base_ts": aint(base_ts),
+         "max_ts": aint(max(tss) + r.choice([0, 0, 5000])), "producer_id": p["producer_id"],
+         "producer_epoch": p["producer_epoch"], "base_seq": p["base_seq"]}
+    return h, keep
+
+
 def gen_enc_inputs(args) -> dict:
     path, lo, hi, seed = args
     cases = []
     for i in range(lo, hi):
         r = random.Random(seed * 104729 + i)
         p, recs = sample_new_batch(r, big_ok=False)
-        cases.append({"id": f"e{i}", "mode": "enc", "p": p, "recs": recs})
+        given = i % 3 == 1
+        if given:
+            p, recs = given_header(r, p, recs)
+        cases.append({"id": f"e{i}", "mode": "enc", "given": given, "p": p, "recs": recs})
     write_cases(path, cases)
     return {"path": path, "cases": len(cases)}
 
@@ -222,11 +245,13 @@ def gen_read_shard(args) -> dict:
         raw = project.unbabs(enc[c["id"]]["b"])
         rng = random.Random(seed * 31337 + len(cases))
         rc = read_case(c["id"].replace("e", "r"), raw, "spec", c["p"], c["recs"], rng, all_flips_below)
+        rc["given"] = c["given"]
         nf += len(rc["faults"])
         cases.append(rc)
     for j, raw in enumerate(fixtures):
         rng = random.Random(seed + j)
         rc = read_case(f"fixture{j}", raw, "fixture", {}, [], rng, 100000)
+        rc["given"] = False
         nf += len(rc["faults"])
         cases.append(rc)
     write_cases(out_path, cases)
